@@ -204,6 +204,7 @@ func (g *Generator) beginOutput(
 			Package:  pkg,
 		},
 		declsBySchema: map[*schemas.Type]*codegen.TypeDecl{},
+		namedBySchema: map[*schemas.Type]codegen.Type{},
 		declsByName:   map[string]*codegen.TypeDecl{},
 	}
 	g.outputs[id] = output
